@@ -84,11 +84,45 @@ def correspond(ctx):
                 ctx.broken("correspondence:expandtabs model!=impl on %r" % s)
             ctx.stat("expandtabs_compared")
     parse_level_oracle(ctx)
+    parse_level_model(ctx)
     ctx.sample({"s": "a\n\tb", "loc": 3, "impl": list(impl_triple("a\n\tb", 3))})
     ctx.sample({"s": "\n\n", "loc": 1, "impl": list(impl_triple("\n\n", 1))})
     ctx.stat("strings", len(strs))
     ctx.coverage_extra["exhaustive"] = True
     ctx.coverage_extra["scope"] = "all strings of length <= %d over %r, all loc" % (n, ALPHA)
+
+
+def parse_level_model(ctx):
+    """the theorems C14_token_slice / C14_action_loc / C14_located / C14_scan_locs / C14_parsed_string speak about the parser
+    model (Model/Core.v, Model/Entry.v): run the extracted model beside the implementation on grammars whose results CARRY
+    locations (Located, actions returning their `loc`, scan_string's start/end), on inputs with tabs and newlines, with and
+    without parse_with_tabs"""
+    from tools.harness import corr, gen, pcommon
+    corr.ensure_driver()
+    rng = ctx.rng
+    W, N_ = ("word", "ab"), ("word", "12")
+    shapes = [("located", W), ("located", ("and", W, N_)), ("and", ("located", W), ("located", N_)), ("plus", ("located", ("mf", W, N_))),
+              ("act", ("loc",), W), ("and", ("act", ("loc",), W), ("act", ("loc",), N_)), ("plus", ("mf", ("act", ("loc",), W), N_)),
+              ("group", ("and", ("located", ("opt", W)), N_)), ("dlist", ("located", W), ","), ("and", ("star", ("lit", "(")), ("located", W))]
+    inputs = ["ab 12", "\tab\t12", "a\nb", "  ab", "ab\t\tba 1", "\n\tb 2\n", "a\tb", "(a\tb)", "a,\tb", "12\tab\n\tab", "x\tab", "\t\t", "ab\t"]
+    groups = []
+    for g in shapes:
+        for keep in (False, True):
+            gg = ("keeptabs", g) if keep else g
+            groups.append((gg, {}, inputs, [("none",)], [("parse", False), ("parse", True), ("scan", None, False, True)]))
+    for i in range(30 if not ctx.thorough else 300):
+        g = gen.rand_grammar(rng, rng.randint(2, 4), dict(names=False, actions=False, fwd=True, extra=True))
+        g = ("located", g) if i % 2 == 0 else ("and", ("act", ("loc",), W), g)
+        if i % 3 == 0:
+            g = ("keeptabs", g)
+        ins = sorted({gen.sample_input(rng, g, gen.ENV0) for _ in range(2)} | {gen.mutate_input(rng, gen.sample_input(rng, g, gen.ENV0), "ab\t\n 1") for _ in range(2)})
+        groups.append((g, gen.ENV0, ins, [("none",)], [("parse", False), ("scan", None, False, True)]))
+    stats = {}
+    recs = corr.run_groups(groups, stats=stats)
+    pcommon.model_agreement(ctx, recs, "location-outcomes")
+    for r in recs:
+        ctx.case("loc-model:" + pcommon.key_of(r), nontrivial=("\t" in r["inp"] or "\n" in r["inp"]), agreed=r.get("agree", True))
+    ctx.stat("location_model_cases", len(recs))
 
 
 # ---- parse level: reported locations index the parsed string -------------------------------------------------------------
